@@ -1,10 +1,13 @@
 """C17 — module privacy and name resolution.
 
 prove      : lake build Mimium.Props.C17 (theorems over all module trees / positions / reference forms) + axiom audit
-correspond : module trees (exhaustive small scope + random) -> Lean model `drv_c17` predicts class/constant and renders the
+correspond : module trees with fn / mod / use / let items (exhaustive small scope + random); the probe (the site whose
+             resolution is judged) is a function in any module, or a `let` -- top level after every prefix of the item list,
+             or inside a module before / after its functions -> Lean model `drv_c17` predicts class/constant and renders the
              source text -> harness `c17` compiles that text with the real compiler and runs one sample -> compare
-decide     : the implementation's own output is judged against the property (private member reached from outside,
-             private module traversed from outside, local binding not shadowing); listed finding classes print KNOWN-FINDING.
+decide     : the implementation's own output is judged against the property (private function / non-pub module-level let
+             reached from outside, private module traversed from outside, local binding not shadowing); listed finding
+             classes print KNOWN-FINDING.
 """
 import os, json, collections, itertools, hashlib
 from vlib import *
@@ -12,7 +15,8 @@ from vlib import *
 MODULES = ["Mimium.Props.C17"]
 
 DSP, PROBE, SHADOW_CONST = 0, 9, 99
-# identifiers: 0 = dsp, 1..3 module names, 4..6 function names, 9 = probe
+LETNAME, LETPROBE = 7, 8
+# identifiers: 0 = dsp, 1..3 module names, 4..6 function names, 7 = `let` item, 8 = `let` probe, 9 = fn probe
 
 
 # --------------------------------------------------------------------------- encoding (token protocol of Drv/C17.lean)
@@ -50,6 +54,9 @@ def enc_item(it):
         if tgt == "S" or tgt == "W":
             return head + tgt
         return head + f"L {len(tgt[1])}" + "".join(f" {n}" for n in tgt[1])
+    if t == "L":
+        _, pub, name, rhs = it
+        return f"L {int(pub)} {name} " + enc_expr(rhs)
     raise ValueError(it)
 
 
@@ -60,12 +67,23 @@ def enc_program(items):
 # --------------------------------------------------------------------------- tree helpers
 
 def walk_defs(items, pre=(), mods_pub=()):
-    """yield (modpath, name, pub, const, modflags) for every function whose body is a constant"""
+    """yield (modpath, name, pub, const, modflags, kind) for every function whose body / `let` whose right-hand side is a constant"""
     for it in items:
         if it[0] == "F" and it[4][0] == "k":
-            yield (tuple(pre), it[2], bool(it[1]), it[4][1], tuple(mods_pub))
+            yield (tuple(pre), it[2], bool(it[1]), it[4][1], tuple(mods_pub), "fn")
+        elif it[0] == "L" and it[3][0] == "k":
+            yield (tuple(pre), it[2], bool(it[1]), it[3][1], tuple(mods_pub), "let")
         elif it[0] == "M":
             yield from walk_defs(it[3], tuple(pre) + (it[2],), tuple(mods_pub) + (bool(it[1]),))
+
+
+def module_lets(items, pre=()):
+    """(modpath, name) of every module-level `let`, in walk order"""
+    for it in items:
+        if it[0] == "L" and pre:
+            yield (tuple(pre), it[2])
+        elif it[0] == "M":
+            yield from module_lets(it[3], tuple(pre) + (it[2],))
 
 
 def has_pub_use(items):
@@ -105,7 +123,12 @@ def judge(case, cls, val):
     hits = [d for d in walk_defs(case["items"]) if d[3] == k]
     if not hits:
         return "ok"
-    modpath, name, pub, _, modflags = hits[0]
+    modpath, name, pub, _, modflags, kind = hits[0]
+    if kind == "let":
+        # a `let` inside a module that is not declared `pub` is a private member of that module
+        if modpath and not pub and not is_prefix(modpath, cur):
+            return "module-let-route"
+        return "ok"
     if modpath and not pub and not is_prefix(modpath, cur):
         return "private-fn-route"
     # a nested module that is not `pub` is itself a private member of its parent
@@ -124,6 +147,9 @@ def number_consts(items, counter):
         if it[0] == "F" and it[4] is None:
             counter[0] += 1
             out.append(("F", it[1], it[2], it[3], ("k", counter[0])))
+        elif it[0] == "L" and it[3] is None:
+            counter[0] += 1
+            out.append(("L", it[1], it[2], ("k", counter[0])))
         elif it[0] == "M":
             out.append(("M", it[1], it[2], number_consts(it[3], counter)))
         else:
@@ -184,7 +210,71 @@ def build_case(tree, use, probe_pos, ref, shadow, probe_index=None, extra=None):
     else:
         items = insert_at(items, probe_pos, probe_index, ("F", True, PROBE, [], body))
         items = items + [("F", False, DSP, [], ("c", ("q", list(probe_pos) + [PROBE])))]
-    return {"items": items, "cur": list(probe_pos), "ref": ref, "shadow": bool(shadow), "tokens": enc_program(items)}
+    return {"items": items, "cur": list(probe_pos), "ref": ref, "shadow": bool(shadow), "tokens": enc_program(items),
+            "probe": "fn", "binder": DSP if probe_pos == () else PROBE}
+
+
+def let_paths(items, pre=()):
+    """(modpath, name) of every `let` item (top level included)"""
+    for it in items:
+        if it[0] == "L":
+            yield (tuple(pre), it[2])
+        elif it[0] == "M":
+            yield from let_paths(it[3], tuple(pre) + (it[2],))
+
+
+def let_variants(tree):
+    """the tree itself, then the tree with one `let n7 = <const>` item placed first (plain) or last (`pub let`) in one
+    block: top level or any module -- i.e. before / after the functions and sub-modules of that block"""
+    yield tree
+    for mp in [()] + sorted(set(module_paths(tree))):
+        yield insert_at(tree, mp, 0, ("L", False, LETNAME, None))
+        yield insert_at(tree, mp, None, ("L", True, LETNAME, None))
+
+
+def let_probe_sites(items):
+    """where a probe goes in the `let` scope:
+    ('top', i)      top-level `let n8 = <ref>()` after the first i top-level items (every prefix of the item list)
+    ('mod', mp, i)  `let n8 = <ref>()` first / last in module mp
+    ('fn', pos)     `pub fn n9(){ <ref>() }` in module pos (or dsp itself at top level)
+    ('fnlet', pos)  the same with the reference as right-hand side of a local `let n7` (a name a module-level let may carry)"""
+    for i in range(len(items) + 1):
+        yield ("top", i)
+    mods = sorted(set(module_paths(items)))
+    for mp in mods:
+        yield ("mod", mp, 0)
+        yield ("mod", mp, None)
+    for pos in [()] + mods:
+        yield ("fn", pos)
+        yield ("fnlet", pos)
+
+
+def build_case_let(tree, use, site, ref, probe_name=LETPROBE):
+    """tree: items with unnumbered constant functions / lets; site: see let_probe_sites (indices refer to the item list
+    after numbering and after the `use` has been inserted)"""
+    items = number_consts(tree, [0])
+    if use is not None:
+        items = insert_at(items, use[0], use[1], use[2])
+    call = ("c", ref)
+    if site[0] == "top":
+        items = items[:site[1]] + [("L", False, probe_name, call)] + items[site[1]:]
+        items = items + [("F", False, DSP, [], ("v", probe_name))]
+        cur, binder = (), probe_name
+    elif site[0] == "mod":
+        items = insert_at(items, site[1], site[2], ("L", False, probe_name, call))
+        items = items + [("F", False, DSP, [], ("v", probe_name))]
+        cur, binder = site[1], probe_name
+    else:
+        body = call if site[0] == "fn" else ("l", LETNAME, call, ("v", LETNAME))
+        cur = site[1]
+        if cur == ():
+            items = items + [("F", False, DSP, [], body)]
+        else:
+            items = insert_at(items, cur, None, ("F", True, PROBE, [], body))
+            items = items + [("F", False, DSP, [], ("c", ("q", list(cur) + [PROBE])))]
+        binder = LETNAME if site[0] == "fnlet" else (DSP if cur == () else PROBE)
+    return {"items": items, "cur": list(cur), "ref": ref, "shadow": False, "tokens": enc_program(items),
+            "probe": site[0], "binder": binder}
 
 
 def small_trees(max_defs, max_depth, fn_names=(4, 5), mod_names=(1, 2), nested_pub=True):
@@ -253,6 +343,10 @@ def ref_options(tree):
         refs.add(("v", p[-1]))
         for s in suffixes(p, 2):
             refs.add(("q", s))
+    for mp, name in let_paths(tree):
+        refs.add(("v", name))
+        for s in suffixes(mp + (name,), 2):
+            refs.add(("q", s))
     return [(r[0], r[1] if r[0] == "v" else list(r[1])) for r in sorted(refs, key=repr)]
 
 
@@ -274,6 +368,42 @@ def gen_exhaustive(max_defs, shard, nshards, stride=1, nested_pub=True):
                         if n % nshards != shard:
                             continue
                         yield build_case(tree, use, pos, ref, sh)
+
+
+def gen_exhaustive_let(max_defs, shard, nshards, stride=1):
+    """the `let` scope.  Part A: every small tree x (no let item | one `let n7` first / last in any block) x every probe site
+    (top-level let after every prefix of the item list, module-level let first / last in every module, fn probes, fn probes
+    with a local `let n7`) x every reference (functions and lets, identifier / absolute / relative path) x probe name
+    (n8 | n7 = the name of the let item).  Part B: every small tree x one `use` (all forms; placed first or last at top
+    level) x top-level let probe after every prefix x every reference."""
+    n = 0
+    nshards *= stride
+    shard *= stride
+    for tree0 in small_trees(max_defs, 2, nested_pub=False):
+        for tree in let_variants(tree0):
+            has_let = tree is not tree0
+            refs = ref_options(tree)
+            for site in let_probe_sites(tree):
+                if site[0] == "fnlet" and not has_let:
+                    continue
+                names = (LETPROBE, LETNAME) if has_let and site[0] in ("top", "mod") else (LETPROBE,)
+                for ref in refs:
+                    for pn in names:
+                        n += 1
+                        if n % nshards != shard:
+                            continue
+                        yield build_case_let(tree, None, site, ref, pn)
+        refs = ref_options(tree0)
+        for use in use_options(tree0):
+            if use is None or use[0] != ():
+                continue
+            ntop = len(tree0) + 1
+            for i in range(ntop + 1):
+                for ref in refs:
+                    n += 1
+                    if n % nshards != shard:
+                        continue
+                    yield build_case_let(tree0, use, ("top", i), ref)
 
 
 class Rng:
@@ -300,13 +430,15 @@ class Rng:
         return xs[self.below(len(xs))]
 
 
-def rand_tree(r, depth, max_members, top=True):
+def rand_tree(r, depth, max_members, top=True, lets=False):
     items = []
     k = 1 + r.below(max_members)
     for _ in range(k):
         if depth > 0 and r.chance(2, 5):
-            sub = rand_tree(r, depth - 1, max_members, False)
+            sub = rand_tree(r, depth - 1, max_members, False, lets)
             items.append(("M", (not top) and r.chance(1, 2), r.pick((1, 2, 3)), sub))
+        elif lets and r.chance(1, 4):
+            items.append(("L", r.chance(1, 3), r.pick((7, 7, 7, 4, 8)), None))
         else:
             items.append(("F", r.chance(1, 2), r.pick((4, 5, 6)), [], None))
     if not r.chance(1, 12):
@@ -321,11 +453,13 @@ def rand_tree(r, depth, max_members, top=True):
     return items
 
 
-def gen_random(seed, n):
+def gen_random(seed, n, lets=False):
+    """lets=True: trees also carry `let` items (top level and in modules, names n7 / n4 / n8) and the probe is, half of the
+    time, a `let` (top level at a random cut of the item list, or inside a module), sometimes named like a let item"""
     r = Rng(seed)
     made = 0
     while made < n:
-        tree = rand_tree(r, 1 + r.below(3), 4)
+        tree = rand_tree(r, 1 + r.below(3), 4, True, lets)
         fnpaths = sorted(set(all_fn_names(tree)))
         mods = sorted(set(module_paths(tree)))
         if not fnpaths:
@@ -359,6 +493,26 @@ def gen_random(seed, n):
             ref = ("v", p[-1])
         if r.chance(1, 15):
             ref = ("q", [r.pick((1, 2, 3)), r.pick((4, 5, 6))])
+        lp = list(let_paths(tree)) if lets else []
+        if lp and r.chance(1, 4):
+            mp, name = r.pick(lp)
+            ref = ("v", name) if r.chance(1, 2) or not mp else ("q", list(r.pick(suffixes(mp + (name,), 2))))
+        if lets and r.chance(1, 2):
+            # a `let` probe
+            pn = r.pick((LETPROBE, LETPROBE, LETNAME))
+            call = ("c", ref)
+            if not mods or r.chance(3, 5):
+                cut = r.below(len(items) + 1)
+                items = items[:cut] + [("L", r.chance(1, 4), pn, call)] + items[cut:]
+                pos = ()
+            else:
+                pos = r.pick(mods)
+                items = insert_at(items, pos, None if r.chance(1, 2) else r.below(4), ("L", r.chance(1, 4), pn, call))
+            items = items + [("F", False, DSP, [], ("v", pn))]
+            made += 1
+            yield {"items": items, "cur": list(pos), "ref": ref, "shadow": False, "tokens": enc_program(items),
+                   "probe": "top" if pos == () else "mod", "binder": pn}
+            continue
         shadow = ref[0] == "v" and r.chance(1, 5)
         call = ("c", ref)
         body = ("l", ref[1], ("a", [], ("k", SHADOW_CONST)), call) if shadow else call
@@ -371,14 +525,15 @@ def gen_random(seed, n):
             items = insert_at(items, pos, idx, ("F", True, PROBE, [], body))
             items = items + [("F", False, DSP, [], ("c", ("q", list(pos) + [PROBE])))]
         made += 1
-        yield {"items": items, "cur": list(pos), "ref": ref, "shadow": bool(shadow), "tokens": enc_program(items)}
+        yield {"items": items, "cur": list(pos), "ref": ref, "shadow": bool(shadow), "tokens": enc_program(items),
+               "probe": "fn", "binder": DSP if pos == () else PROBE}
 
 
 # --------------------------------------------------------------------------- correspondence
 
 def new_stats():
     return {"evaluations": 0, "nontrivial": set(), "disagreements": 0, "impl_property_failures": 0,
-            "classes": collections.Counter(), "forms": collections.Counter(), "samples": []}
+            "classes": collections.Counter(), "forms": collections.Counter(), "probes": collections.Counter(), "samples": []}
 
 
 def compare_cases(ctx, name, cases, stats):
@@ -413,6 +568,7 @@ def compare_cases(ctx, name, cases, stats):
         verdict = judge(c, icls, ival)
         stats["classes"][icls] += 1
         stats["forms"][("ident" if c["ref"][0] == "v" else "path") + ("+shadow" if c["shadow"] else "")] += 1
+        stats["probes"][c.get("probe", "fn")] += 1
         if icls in ("ok", "private"):
             stats["nontrivial"].add(int.from_bytes(hashlib.blake2b(c["tokens"].encode(), digest_size=8).digest(), "little"))
         if not agree:
@@ -426,7 +582,8 @@ def compare_cases(ctx, name, cases, stats):
         problems.append({"kind": "case", "stream": name, "tokens": c["tokens"], "source": json.loads(c["source_json"]),
                          "impl": [icls, ival, imsg], "model": [mcls, mval], "judge": verdict, "agree": agree,
                          "pub_use": has_pub_use(c["items"]), "dup_decl": has_dup_decl(c["items"]),
-                         "cur": c["cur"], "ref": c["ref"], "shadow": c["shadow"], "items": c["items"]})
+                         "cur": c["cur"], "ref": c["ref"], "shadow": c["shadow"], "items": c["items"],
+                         "probe": c.get("probe", "fn"), "binder": c.get("binder", PROBE)})
     return problems
 
 
@@ -442,6 +599,10 @@ def work(arg):
     st["problem_counts"] = collections.Counter()
     if job[0] == "enum":
         cases = gen_exhaustive(max_defs, job[1], job[2], stride, nested_pub=(max_defs > 2))
+    elif job[0] == "enumlet":
+        cases = gen_exhaustive_let(max_defs, job[1], job[2], stride)
+    elif job[0] == "randlet":
+        cases = gen_random(job[1], job[2], lets=True)
     else:
         cases = gen_random(job[1], job[2])
     kept = {"fail": [], "disagree": [], "other": []}
@@ -468,11 +629,27 @@ def work(arg):
     pr = kept["other"][:KEEP_PER_SHARD]
     for b in ("fail", "disagree"):
         pr += sorted(kept[b], key=lambda r: len(r["tokens"]))[:KEEP_PER_SHARD]
-    if job[0] == "enum":
+    if job[0] in ("enum", "enumlet"):
         # shards of the exhaustive scope are disjoint by construction: report the count, not the set
         st["nontrivial_count"] = len(st["nontrivial"])
         st["nontrivial"] = set()
     return st, pr
+
+
+def let_context_explains(pr):
+    """F12-letctx: the item (or local let) that holds the reference carries the plain name of a module-level `let`, and the
+    module of the *last* such let (module_context_map is keyed by that plain name; the last insert wins) is the module of the
+    private member that was reached or lies inside it"""
+    try:
+        k = int(pr["impl"][1])
+    except ValueError:
+        return False
+    hits = [d for d in walk_defs(pr["items"]) if d[3] == k]
+    if not hits:
+        return False
+    target_mod = hits[0][0]
+    same = [mp for mp, name in module_lets(pr["items"]) if name == pr.get("binder")]
+    return bool(same) and is_prefix(target_mod, same[-1])
 
 
 def finding_class(pr):
@@ -481,6 +658,10 @@ def finding_class(pr):
         return None
     if pr["judge"] == "private-mod-route":
         return "private-mod-route"
+    if pr["judge"] == "module-let-route":
+        return "module-let-global"
+    if pr["judge"] == "private-fn-route" and let_context_explains(pr):
+        return "private-fn-route+let-context"
     if pr["judge"] == "private-fn-route" and pr["pub_use"]:
         return "private-fn-route+reexport"
     if pr["judge"] == "private-fn-route" and pr["dup_decl"]:
@@ -490,7 +671,7 @@ def finding_class(pr):
 
 def case_from_record(r):
     return {"items": r["items"], "cur": r["cur"], "ref": tuple(r["ref"]) if isinstance(r["ref"], list) else r["ref"],
-            "shadow": r["shadow"], "tokens": r["tokens"]}
+            "shadow": r["shadow"], "tokens": r["tokens"], "probe": r.get("probe", "fn"), "binder": r.get("binder", PROBE)}
 
 
 def load_corpus():
@@ -509,7 +690,7 @@ def main(ctx, args):
     ctx.assumptions += [
         "Model/ModRes.lean is a hand port of ast/program.rs (module flattening, ModuleInfo, process_use_statement, resolve_qualified_path) and mirgen/convert_qualified_names.rs; the tie is the correspondence run below",
         "mangled symbols are modelled as segment lists ($-join is injective because identifiers cannot contain '$'); hash maps as association lists (never iterated by the code)",
-        "only fn / inline mod / use statements and Let, LetRec, Lambda, Var, QualifiedVar, nullary Apply are modelled; type declarations, external module files, stages, global let inside modules are not",
+        "only fn / inline mod / use / let (single-name pattern, top level and module level, `pub let` accepted and ignored) statements and Let, LetRec, Lambda, Var, QualifiedVar, nullary Apply are modelled; type declarations, external module files, stages, tuple/record let patterns, bare expression statements are not",
         "typing.rs lexical lookup and evaluation are modelled in Model/ModResIO.lean and only exercised (no theorem)",
         "generated identifiers (dsp, n1..n9) do not clash with builtin names",
     ]
@@ -533,9 +714,11 @@ def main(ctx, args):
         max_defs, stride = (2, 1) if ctx.tier == "quick" else (3, 4)
         shards = NCPU * 2
         jobs = [("enum", k, shards) for k in range(shards)]
+        jobs += [("enumlet", k, shards) for k in range(shards)]
         nrand = NCPU * 2 if ctx.tier == "quick" else NCPU * 8
-        per = 4000 if ctx.tier == "quick" else 20000
+        per = 2000 if ctx.tier == "quick" else 10000
         jobs += [("rand", ctx.seed * 100000 + i, per) for i in range(nrand)]
+        jobs += [("randlet", ctx.seed * 100000 + 50000 + i, per) for i in range(nrand)]
 
         from concurrent.futures import ProcessPoolExecutor
         with ProcessPoolExecutor(max_workers=NCPU) as ex:
@@ -549,12 +732,17 @@ def main(ctx, args):
             shard_counts.update(st["problem_counts"])
             stats["classes"].update(st["classes"])
             stats["forms"].update(st["forms"])
+            stats["probes"].update(st["probes"])
             stats["samples"] += st["samples"][:1]
             problems += pr
         ctx.coverage["exhaustive_scope"] = (f"all module trees with <= {max_defs} functions (names n4,n5; modules n1,n2; depth <= 2; every pub/private assignment of functions"
                                             + ("" if max_defs <= 2 else " and nested modules") + ") "
                                             "x (no use | one use / pub use: single, {..}, * of every absolute/relative path, placed at top or in any module) "
-                                            "x probe position (top level or any module) x reference (identifier, every absolute/relative path) x (plain | locally shadowed)")
+                                            "x probe position (top level or any module) x reference (identifier, every absolute/relative path) x (plain | locally shadowed)"
+                                            "  +  let scope: A) every such tree (nested modules non-pub) x (no let item | one `let n7 = const` first or last (`pub let`) in the top-level block or in any module) "
+                                            "x probe (top-level `let n8 = ref()` after EVERY prefix of the item list | module-level `let n8 = ref()` first / last in any module | fn probe in any module | fn probe whose reference is the right-hand side of a local `let n7`) "
+                                            "x reference (functions and lets: identifier, every absolute/relative path) x probe name (n8 | n7 = name of the let item); "
+                                            "B) every such tree x one use / pub use (single, {..}, *; first or last at top level) x top-level let probe after every prefix x reference")
         ctx.coverage["exhaustive_stride"] = stride
         ctx.coverage["exhaustive"] = False
     # ---- decide
@@ -602,7 +790,7 @@ def main(ctx, args):
         "traces_validated_against_impl": stats["evaluations"],
         "model_impl_disagreements": stats["disagreements"],
         "impl_property_failures": stats["impl_property_failures"],
-        "input_distribution": {"impl_class": dict(stats["classes"]), "reference_form": dict(stats["forms"]),
+        "input_distribution": {"impl_class": dict(stats["classes"]), "reference_form": dict(stats["forms"]), "probe_kind": dict(stats["probes"]),
                                "known_finding_hits": dict(known_hits)},
     })
     ctx.finish("proof")
